@@ -38,7 +38,7 @@ def run_user_callee(e):
 
 def caught_test(t):
     """`self.exception_caught == self._run_user(c, ...)` in either order -> callee"""
-    if isinstance(t, ast.Compare) and len(t.ops) == 1 and isinstance(t.ops[0], ast.Eq):
+    if isinstance(t, ast.Compare) and len(t.ops) == 1 and isinstance(t.ops[0], (ast.Eq, ast.Is)):
         a, b = t.left, t.comparators[0]
         for x, y in ((a, b), (b, a)):
             if ast.unparse(x) == 'self.exception_caught':
@@ -54,6 +54,9 @@ def pure(e):
     return True
 
 
+FLAG = ['failed']          # name of the local boolean flag of _run_core (found by `generate`: renaming it is harmless)
+
+
 def block(stmts):
     if not stmts:
         return '.done'
@@ -66,9 +69,9 @@ def block(stmts):
     if isinstance(s, ast.Return) and (s.value is None or (isinstance(s.value, ast.Constant) and s.value.value is None)):
         return '.ret'
     if isinstance(s, ast.Assign) and len(s.targets) == 1 and isinstance(s.targets[0], ast.Name):
-        if s.targets[0].id == 'failed' and isinstance(s.value, ast.Constant) and s.value.value in (True, False):
+        if s.targets[0].id == FLAG[0] and isinstance(s.value, ast.Constant) and s.value.value in (True, False):
             return '(.setFailed %s %s)' % ('true' if s.value.value else 'false', k())
-        if s.targets[0].id != 'failed' and pure(s.value):
+        if s.targets[0].id != FLAG[0] and pure(s.value):
             return k()
     if isinstance(s, ast.If):
         t = s.test
@@ -81,9 +84,9 @@ def block(stmts):
                 return '(.ifSkipDeco %s %s)' % (block(s.body), k())
             if src in ("getattr(self.case, 'force_failure', None)", "getattr(self.case, 'force_failure', False)", 'self.case.force_failure'):
                 return '(.ifForce %s %s)' % (block(s.body), k())
-            if src == 'failed':
+            if src == FLAG[0]:
                 return '(.ifFailed false %s %s)' % (block(s.body), k())
-            if src == 'not failed':
+            if src == 'not ' + FLAG[0]:
                 return '(.ifFailed true %s %s)' % (block(s.body), k())
     if isinstance(s, ast.Try) and not s.handlers and not s.orelse and s.finalbody:
         return '(.tryFinally %s %s %s)' % (block(s.body), block(s.finalbody), k())
@@ -145,7 +148,11 @@ def handler_for_ok(fn):
 
 def generate(repo):
     tree = ast.parse(open(os.path.join(repo, 'testtools', 'runtest.py')).read())
-    core = block(find(tree, 'RunTest', '_run_core').body)
+    fn = find(tree, 'RunTest', '_run_core')
+    flags = [st.targets[0].id for st in fn.body if isinstance(st, ast.Assign) and len(st.targets) == 1 and isinstance(st.targets[0], ast.Name)
+             and isinstance(st.value, ast.Constant) and st.value.value is False]
+    FLAG[0] = flags[0] if len(flags) == 1 else 'failed'
+    core = block(fn.body)
     rules = select_rules(find(tree, 'RunTest', '_select_exception'))
     hf = handler_for_ok(find(tree, 'RunTest', '_handler_for'))
     return '''import TTV.Model.RunSkel
